@@ -136,6 +136,14 @@ fn run_t<T: Elem>(case: &mut Case) -> Result<Outcome, String> {
             sup = vec![c; n - 1];
         }
     }
+    // float types: the whole matrix (and right-hand side) at a tiny or huge scale, exact power of two
+    let gk: i32 = if !T::EXACT && flavor == 2 && case.src.coin() { case.src.small_int(if T::NAME == "cmplx" { 300 } else { 600 }) as i32 } else { 0 }; // complex products/quotients square the moduli: stay inside 1e-100..1e100 (C13's range)
+    if gk != 0 {
+        sub = sub.iter().map(|v| v.scale2(gk)).collect();
+        main = main.iter().map(|v| v.scale2(gk)).collect();
+        sup = sup.iter().map(|v| v.scale2(gk)).collect();
+        case.class("globally scaled by 2^k, |k| <= 600");
+    }
     let t: Tridiagonal<T> = match ctor {
         0 => {
             let mut t = Tridiagonal::<T>::new(n);
@@ -228,7 +236,7 @@ fn run_t<T: Elem>(case: &mut Case) -> Result<Outcome, String> {
     let u = Tridiagonal::with_vecs(sub2.clone(), main2.clone(), sup2.clone());
     let f2 = |p: &[T], q: &[T], f: &dyn Fn(T, T) -> T| -> Vec<T> { p.iter().zip(q).map(|(x, y)| f(*x, *y)).collect() };
     let f1 = |p: &[T], f: &dyn Fn(T) -> T| -> Vec<T> { p.iter().map(|x| f(*x)).collect() };
-    let exact_arith = T::EXACT || !cont;
+    let exact_arith = T::EXACT || (!cont && gk == 0);
     if exact_arith {
         let add = |x: T, y: T| x + y;
         let sb = |x: T, y: T| x - y;
@@ -245,6 +253,14 @@ fn run_t<T: Elem>(case: &mut Case) -> Result<Outcome, String> {
         let mut w = t.clone();
         w -= s;
         tri_eq(&w, &f1(&sub, &|x| x - s), &f1(&main, &|x| x - s), &f1(&sup, &|x| x - s), "T -= s")?;
+        if !T::EXACT {
+            // exactly representable quotients: (T * s) / s gives T back
+            let ts = t.clone() * snz;
+            tri_eq(&(ts.clone() / snz), &sub, &main, &sup, "(T * s) / s")?;
+            let mut w = ts;
+            w /= snz;
+            tri_eq(&w, &sub, &main, &sup, "(T * s) /= s")?;
+        }
         if T::EXACT {
             tri_eq(&(t.clone() / snz), &f1(&sub, &|x| x / snz), &f1(&main, &|x| x / snz), &f1(&sup, &|x| x / snz), "T / s")?;
             let mut w = t.clone();
@@ -376,6 +392,11 @@ fn run_t<T: Elem>(case: &mut Case) -> Result<Outcome, String> {
                 });
         }
     }
+    // strictly diagonally dominant float systems (at any scale): elimination meets no zero pivot, whatever the
+    // exact oracle could or could not represent
+    if !T::EXACT && flavor == 2 && zero_pivot.is_none() {
+        zero_pivot = Some(None);
+    }
     match (zero_pivot, T::EXACT || recurrence_f64_exact) {
         (Some(Some(step)), true) => {
             case.mark_nontrivial();
@@ -393,8 +414,8 @@ fn run_t<T: Elem>(case: &mut Case) -> Result<Outcome, String> {
             let xsol = match res {
                 Ok(v) => v.vec,
                 Err(e) => {
-                    if T::EXACT || recurrence_f64_exact {
-                        return Err(format!("solve panicked although elimination meets no zero pivot: {}", e));
+                    if T::EXACT || recurrence_f64_exact || flavor == 2 {
+                        return Err(format!("solve panicked although elimination meets no zero pivot ({}): {}", if flavor == 2 { "strictly diagonally dominant system" } else { "exact recurrence" }, e));
                     }
                     case.class("float refusal not judged");
                     return Ok(Outcome::Pass);
